@@ -2,7 +2,7 @@ use super::expr;
 use super::objcode::{CallbackCode, ObjectCodeMap, PropertyCode, PropertyCodeKind};
 use crate::diagnostic::{Diagnostic, Diagnostics};
 use crate::objtree::{ObjectNode, ObjectTree};
-use crate::opcode::{BuiltinFunctionKind, ConsoleLogLevel};
+use crate::opcode::{BinaryArithOp, BinaryOp, BuiltinFunctionKind, ConsoleLogLevel};
 use crate::qtname::{self, FileNameRules, UniqueNameGenerator};
 use crate::tir;
 use crate::typedexpr::{DescribeType as _, TypeDesc};
@@ -864,6 +864,14 @@ impl CxxCodeBodyTranslator {
         match rv {
             Rvalue::Copy(a) => self.format_operand(a),
             Rvalue::UnaryOp(op, a) => format!("{}{}", op, self.format_operand(a)),
+            Rvalue::BinaryOp(BinaryOp::Arith(BinaryArithOp::Rem), l, r) if is_double_operation(l, r) => {
+                // there's no % operator for floating point in C++
+                format!(
+                    "std::fmod({}, {})",
+                    self.format_operand(l),
+                    self.format_operand(r)
+                )
+            }
             Rvalue::BinaryOp(op, l, r) => format!(
                 "{} {} {}",
                 self.format_operand(l),
@@ -1033,6 +1041,10 @@ fn format_string_literal(s: &str) -> String {
     out
 }
 
+fn is_double_operation(l: &tir::Operand, r: &tir::Operand) -> bool {
+    l.type_desc() == TypeDesc::DOUBLE || r.type_desc() == TypeDesc::DOUBLE
+}
+
 fn member_access_op(a: &tir::Operand) -> &'static str {
     if a.type_desc().is_pointer() {
         "->"
@@ -1133,6 +1145,11 @@ fn collect_system_includes(object_code_maps: &[ObjectCodeMap]) -> HashSet<&'stat
                 {
                     #[allow(clippy::single_match)]
                     match r {
+                        Rvalue::BinaryOp(BinaryOp::Arith(BinaryArithOp::Rem), l, r)
+                            if is_double_operation(l, r) =>
+                        {
+                            includes.insert("cmath");
+                        }
                         Rvalue::CallBuiltinFunction(k, _) => match k {
                             BuiltinFunctionKind::ConsoleLog(_) => {
                                 includes.insert("QtDebug");
